@@ -404,6 +404,18 @@ def run_io_discipline(res, ast):
         f = ast.fn(BCMOD, "execute_in", contains="BcInterpreter")
         _pm = pm
         ok = any(_pm.match_expr(l["cond"], "!__v_ip.is_null()") and _pm.find_expr(l["body"], "__v_ip = enter_ops(__e_c, __v_ip)") for l in walk_t(f["node"]["body"], "While"))
+        if not ok:
+            # the same loop written as `loop { if ip.is_null() { break .. } .. ip = enter_ops(.., ip) .. }`: a top-level test of the pointer that leaves the loop
+            for l in walk_t(f["node"]["body"], "Loop"):
+                b_ = _pm.find_expr(l["body"], "__v_ip = enter_ops(__e_c, __v_ip)")
+                if not b_:
+                    continue
+                ipn = b_[0][1]["__v_ip"]
+                for st_ in l["body"]["stmts"]:
+                    e_ = st_.get("expr") if st_["t"] == "ExprStmt" else None
+                    if e_ is not None and e_["t"] == "If" and _pm.match_expr(e_["cond"], "__v_ip.is_null()", {"__v_ip": ipn}) is not None \
+                            and any(True for _ in walk_t(e_["then"], "Break")) | any(True for _ in walk_t(e_["then"], "Return")):
+                        ok = True
         res.check(ok, "IO-DISCIPLINE", f"{BCMOD}|execute_in|trampoline", where(BCMOD, f["node"], "execute_in"),
                   "the threaded-code trampoline must be `while !ip.is_null() { .. ip = enter_ops(..) }` so that the null ip returned by a failed input/output op ends the run")
     except Missing as m:
